@@ -28,7 +28,7 @@ man = {
     "setup_cmd": "cd /verif/govc && GOPROXY=off GOFLAGS=-mod=mod GOWORK=off go build -o /verif/bin/govc .",
     "hooks": {
         "guard": "verif",
-        "enable": "go build -tags verif (the contract files verif_contracts*.go contain comments only and are read by govc; they change no compiled code)",
+        "enable": "go build -tags verif (verif_contracts*.go contain comments only; verif_clients.go contains ghost client functions that nothing refers to; all are read by govc and none is compiled without the tag)",
         "baseline_off_cmd": "cd /repo && go test -vet=off -count=1 ./... && cd /repo/internal/app && go test -vet=off -count=1 ./...",
         "source_commits": hook_commits,
         "add_only": True,
